@@ -149,7 +149,7 @@ def compare_model(chk, reqs, metas):
         if mt is None:
             chk.corr_break('model error %s' % out, {'stream': stream.hex()})
             continue
-        if label in ('badmagic', 'badversion'):
+        if label in ('badmagic', 'badversion') or any(m.get('k') == 'bad_contact' for t in trace for m in t.get('msgs', [])):
             # when a bad header is detected is not observable; compare the outcome only
             if len(stream) >= 6 and trace and not trace[-1].get('escaped') and len(trace) == len(mt):
                 if trace[-1]['dead'] != mt[-1]['dead']:
@@ -302,7 +302,7 @@ def run(chk):
                               {'stream': stream.hex(), 'chunks': [x.hex() for x in chunks]})
         if kind == 'trailing_after_contact':
             monitor(chk, stream, chunks, trace, 'contact header followed by a message')
-        if kind in ('badmagic', 'badversion', 'trailing_after_contact'):
+        if kind in ('badmagic', 'badversion', 'trailing_after_contact', 'unknown_type', 'random'):
             reqs.append({'op': 'tcpcl.feed', 'chunks': [c.hex() for c in chunks]})
             metas.append((stream, chunks, trace, kind))
 
